@@ -187,11 +187,48 @@ def run(chk):
                             chk.violation('%s of a pure shear state differs from its definition (zero trace: sign +1, also when the normal components are -0.0)' % fn,
                                           {'tensor_s11_s22_s33_s12_s13_s23': [repr(x) for x in t]}, float(w), got, part='pure_shear')
                     chk.nontrivial(('pure_shear', tau, pos, repr(z)))
+    # long columns (a field of a whole FE model): every row of a column of 2^16 - 1 ... 2^17 + 1 tensors is the value of that tensor alone
+    import itertools
+    base = [list(p) + [0.0, 0.0, 0.0] for l in ((3, 1, -2), (2, 2, -1), (5, 0, -5), (1, 1, 1), (0, 0, 0), (-4, -1, -3)) for p in set(itertools.permutations([float(x) for x in l]))]
+    base += [[0.0, 0.0, 0.0, 2.0, 0.0, 0.0], [1.0, 1.0, 0.0, 0.0, -3.0, 0.0], [2.0, -1.0, 0.5, 0.25, 0.75, -1.5]]
+    fns_long = ['mises', 'tresca', 'max_principal', 'min_principal', 'abs_max_principal', 'signed_mises_trace', 'signed_tresca_trace', 'signed_mises_abs_max_principal', 'signed_tresca_abs_max_principal']
+    with warnings.catch_warnings():
+        warnings.simplefilter('ignore')
+        b = np.array(base, dtype=np.float64)
+        short = {fn: np.asarray(getattr(EQ, fn)(*[b[:, j] for j in range(6)]), dtype=np.float64) for fn in fns_long}
+        for fn in fns_long:      # the short column against the single tensor
+            for i in range(len(base)):
+                chk.evals(1)
+                one = float(getattr(EQ, fn)(*base[i]))
+                if not close(short[fn][i], one, 1e-12, 1e-12):
+                    chk.violation('%s of a tensor inside a column differs from the tensor evaluated alone' % fn, {'tensor': base[i], 'rows': len(base)}, one, float(short[fn][i]), part='long_column')
+        for rows in (2 ** 16 - 1, 2 ** 16 + 1, 2 ** 17 + 1):
+            reps = rows // len(base) + 1
+            arr = np.tile(b, (reps, 1))[:rows]
+            df = pd.DataFrame(arr, columns=COLS, index=pd.Index(np.arange(rows) * 3 + 5, name='element_id'))
+            for fn in fns_long:
+                chk.evals(1)
+                try:
+                    plain = np.asarray(getattr(EQ, fn)(*[arr[:, j] for j in range(6)]), dtype=np.float64)
+                    acc = getattr(df.equistress, fn)()
+                except Exception as ex:
+                    chk.violation('%s raised %r on a column of %d tensors' % (fn, ex, rows), {'rows': rows}, part='long_column')
+                    continue
+                want = np.tile(short[fn], reps)[:rows]
+                bad = np.nonzero(~np.isclose(plain, want, rtol=1e-12, atol=1e-12))[0]
+                bad_a = np.nonzero(~np.isclose(acc.to_numpy(), want, rtol=1e-12, atol=1e-12))[0]
+                if len(bad) or len(bad_a) or len(acc) != rows or not acc.index.equals(df.index):
+                    r = int(bad[0]) if len(bad) else (int(bad_a[0]) if len(bad_a) else -1)
+                    chk.violation('%s of row %d of a column of %d tensors differs from the same tensor in a short column' % (fn, r, rows),
+                                  {'rows': rows, 'row': r, 'tensor': arr[r].tolist() if r >= 0 else None, 'via': 'function' if len(bad) else 'accessor'},
+                                  float(want[r]) if r >= 0 else None, float(plain[r]) if len(bad) else (float(acc.iloc[r]) if r >= 0 else None), part='long_column')
+                else:
+                    chk.nontrivial(('long_column', fn, rows))
     chk.cov['rule'] = ('TLC enumerates principal values in -L..L^3 (uniaxial, pure shear, hydrostatic, repeated, zero included) x integer quaternions with |q|^2 <= 15 (cube rotations, 45/120 degree '
                        'rotations, generic ones) and proves rotation invariance of the component formulas; the float image of every rotated tensor is evaluated by all nine plain functions at scale '
                        '1, 1/2, 3 and 2^-40, as columns and through df.equistress; expected values come from the principal values, never from an eigen-solver. '
                        'Non-trivial = three distinct principal values and a non-trivial rotation.')
-    chk.cov['rule'] += ' Also: scale factors 0.1 and 123.456 (not exactly representable), one column with rows at magnitudes 2^-40 / 2^20 / 1, tensor columns stored in another order plus a foreign column, integer-typed components, pure shear with +0.0 / -0.0 normal components.'
+    chk.cov['rule'] += ' Also: scale factors 0.1 and 123.456 (not exactly representable), one column with rows at magnitudes 2^-40 / 2^20 / 1, tensor columns stored in another order plus a foreign column, integer-typed components, pure shear with +0.0 / -0.0 normal components, columns of 2^16 - 1, 2^16 + 1 and 2^17 + 1 tensors against the same tensors in a short column (functions and accessor).'
     chk.cov['exhaustive'] = True
     chk.assumptions += ['when a sign indicator is mathematically zero and the tensor is not exactly representable / not diagonal, either sign is accepted (floating-point noise decides)']
 
